@@ -809,7 +809,29 @@ func c16RunFlood(n int) (obs, oracle string) {
 			k++
 		}
 	}
-	return fmt.Sprintf("F=%d/%d/%s", k, int64(held), order), oracle
+	// events that Send splits: texts of 1x .. 6x MaxEventLength.  No wall clock: with AllowFlood
+	// the limiter is never consulted, so writeDelay and lastRate are exactly what they were
+	// before the Send (rate() always advances lastRate).
+	rated := 0
+	max := s.c.MaxEventLength()
+	for m := 1; m <= 6 && rated == 0; m++ {
+		w0, _, lr0, ok0 := s.c.VerifLimiterState()
+		text := fmt.Sprintf("S%d", m) + strings.Repeat("y", m*max)
+		cmd := girc.PRIVMSG
+		if m%2 == 0 {
+			cmd = girc.NOTICE
+		}
+		s.c.Send(&girc.Event{Command: cmd, Params: []string{"#f1", text}})
+		w1, _, lr1, ok1 := s.c.VerifLimiterState()
+		if ok0 && ok1 && (w1 != w0 || !lr1.Equal(lr0)) {
+			rated++
+			if oracle == "" {
+				oracle = fmt.Sprintf("allowflood-delayed: with AllowFlood set, Send of a %s of %d x MaxEventLength (split into pieces) consulted the limiter: writeDelay %v -> %v, lastRate moved %v",
+					cmd, m, w0, w1, !lr1.Equal(lr0))
+			}
+		}
+	}
+	return fmt.Sprintf("F=%d/%d/%s/rated%d", k, int64(held), order, rated), oracle
 }
 
 func c16Ints(f []string) ([]int, bool) {
